@@ -6,7 +6,8 @@ use quote::ToTokens;
 use std::io::BufRead;
 use syn::*;
 
-pub const LEAVES: [&str; 9] = ["u8", "u16", "u32", "u64", "usize", "i32", "i64", "bool", "f64"];
+/// leaf 9 is a raw pointer: FFI-safe by itself, but WITHOUT a null niche — `Option<*const u8>` must be wrapped like `Option<u32>`
+pub const LEAVES: [&str; 10] = ["u8", "u16", "u32", "u64", "usize", "i32", "i64", "bool", "f64", "*const u8"];
 
 thread_local! { static GENERIC: std::cell::Cell<bool> = std::cell::Cell::new(false); }
 /// header field 3 of a case line: the trait has a type parameter `T: Copy + 'static`, written wherever the grammar says leaf 2 (u32)
@@ -107,7 +108,7 @@ fn norm_nolt(t: &impl ToTokens) -> String {
 /// C type code of a vtable parameter / return type
 fn ctype_code(t: &Type) -> (i64, i64) {
     let s = norm_nolt(t);
-    let lf = |x: &str| if generic() && x == "T" { Some(2) } else if generic() && x == "u32" { None } else { LEAVES.iter().position(|l| *l == x).map(|p| p as i64) };
+    let lf = |x: &str| if generic() && x == "T" { Some(2) } else if generic() && x == "u32" { None } else { LEAVES.iter().position(|l| l.replace(' ', "") == x).map(|p| p as i64) };
     if let Some(p) = lf(&s) { return (1, p); }
     if s == "Pod" { return (8, 0); }
     if s == "i32" { return (1, 5); }
